@@ -382,7 +382,9 @@ class Builder:
             if ctrait:
                 keys.append("%s for %s::%s" % (ctrait, ctype, name))
             keys.append("%s::%s" % (ctype, name))
+            self._cur_impl_trait = ctrait if kw == "impl" else None
             self.emit_fn(rel, src, m, mem, keys, o)
+            self._cur_impl_trait = None
         self.emit(re.sub(r"(?m)^(\s*)///", r"\1// ", src[pos:b]), "repo", file=rel, line=rs.line_of(src, pos))
         self.emit("}\n", "repo", file=rel, line=rs.line_of(src, it.end - 1))
 
@@ -411,7 +413,8 @@ class Builder:
         fnrec = {"name": qual, "file": rel, "line": rs.line_of(src, it.start), "external": external,
                  "external_body": declared_external_body, "clauses": [], "tags": c.tags if c else [],
                  "safety": c.safety if c else [], "has_body": it.body_open is not None,
-                 "canary_exempt": c.canary_exempt if c else None, "has_contract": c is not None}
+                 "canary_exempt": c.canary_exempt if c else None, "has_contract": c is not None,
+                 "impl_trait": getattr(self, "_cur_impl_trait", None), "method": name}
         self.fns.append(fnrec)
         if external:
             self.report["external_members"].append(qual)
@@ -1079,6 +1082,46 @@ class Builder:
                             edits.append(Edit(args[k2 - 1][1], args[k2][0], [Seg(")); " + lit(k2) + "vx_fmt_display(%s, &(" % fexp, "repo", fn=qual)]))
                         edits.append(Edit(args[-1][1], cp + 1, [Seg(")); " + lit(len(args)) + "Ok(()) }", "repo", fn=qual)], order=5))
                     self.count("R27")
+            if rule[0] == "R28":
+                # E.iter().find_map(CL) -> ({ let vx_r = E; let vx_f = CL; vx_r.vx_iter_find_map(vx_f) })  (inline when the closure is untyped)
+                for mm in re.finditer(r"\.\s*iter\s*\(\s*\)\s*\.\s*find_map\s*\(", m[a:b]):
+                    op = a + mm.end() - 1
+                    cp = rs.match_close(m, op)
+                    k = chain_start(m, a, a + mm.start())
+                    if self._closure_is_typed(m, op, cp):
+                        edits.append(Edit(k, k, [Seg("({ let vx_r = ", "repo", fn=qual)]))
+                        edits.append(Edit(a + mm.start(), a + mm.end(), [Seg("; let vx_f = ", "repo", fn=qual)]))
+                        edits.append(Edit(cp, cp + 1, [Seg("; vx_r.vx_iter_find_map(vx_f) })", "repo", fn=qual)], order=5))
+                    else:
+                        edits.append(Edit(a + mm.start(), a + mm.end(), [Seg(".vx_iter_find_map(", "repo", fn=qual)]))
+                    self.count("R28")
+            if rule[0] == "R29":
+                # OPT.into_iter().flatten().filter_map(CL).cloned().collect() -> ({ let vx_r = OPT; let vx_f = CL; vx_opt_slice_filter_map_cloned(vx_r, vx_f) })
+                for mm in re.finditer(r"\.\s*into_iter\s*\(\s*\)\s*\.\s*flatten\s*\(\s*\)\s*\.\s*filter_map\s*\(", m[a:b]):
+                    op = a + mm.end() - 1
+                    cp = rs.match_close(m, op)
+                    t = re.match(r"\s*\.\s*cloned\s*\(\s*\)\s*\.\s*collect\s*(?:::\s*<[^()]*>)?\s*\(\s*\)", m[cp + 1:b])
+                    if not t:
+                        continue
+                    k = chain_start(m, a, a + mm.start())
+                    if self._closure_is_typed(m, op, cp):
+                        edits.append(Edit(k, k, [Seg("({ let vx_r = ", "repo", fn=qual)]))
+                        edits.append(Edit(a + mm.start(), a + mm.end(), [Seg("; let vx_f = ", "repo", fn=qual)]))
+                        edits.append(Edit(cp, cp + 1 + t.end(), [Seg("; vx_opt_slice_filter_map_cloned(vx_r, vx_f) })", "repo", fn=qual)], order=5))
+                    else:
+                        edits.append(Edit(k, k, [Seg("vx_opt_slice_filter_map_cloned(", "repo", fn=qual)]))
+                        edits.append(Edit(a + mm.start(), a + mm.end(), [Seg(", ", "repo", fn=qual)]))
+                        edits.append(Edit(cp + 1, cp + 1 + t.end(), [], order=5))
+                    self.count("R29")
+            if rule[0] == "R30":
+                # RECV.get(K) on the listed HashMap receivers -> vx_map_get_bytes(RECV, K)  (lookup of a byte-vector key by content)
+                for recv in rule[1:]:
+                    for mm in re.finditer(r"(?<![A-Za-z0-9_.])" + re.escape(recv) + r"\s*\.\s*get\s*\(", m[a:b]):
+                        edits.append(Edit(a + mm.start(), a + mm.end(), [Seg("vx_map_get_bytes(%s, " % recv, "repo", fn=qual)]))
+                        self.count("R30")
+                    for mm in re.finditer(r"(?<![A-Za-z0-9_.])" + re.escape(recv) + r"\s*\.\s*insert\s*\(", m[a:b]):
+                        edits.append(Edit(a + mm.start(), a + mm.end(), [Seg("vx_map_insert_bytes(%s, " % recv, "repo", fn=qual)]))
+                        self.count("R30")
             if rule[0] == "R18":
                 # `E.then(|| BODY)` -> `(if E { Some(BODY) } else { None })`  (the definition of bool::then)
                 for mm in re.finditer(r"\.\s*then\s*\(\s*\|\s*\|", m[a:b]):
